@@ -429,7 +429,18 @@ impl Sim {
         };
         // prediction for INSERT row operations
         let pred = if fam == Family::Insert {
-            predict_insert(&self.model[&h].log, &resolved)
+            // the width of a SELECT source is measured on the real statement that is passed
+            let sel_width = match op {
+                Op::Ins(InsOp::SelectFrom(Sub::Handle { h: g, .. })) => {
+                    let a = self.arena.borrow();
+                    match a.get(*g) {
+                        Some(Stmt::Select(q)) => Some(measured_width(q)),
+                        _ => None,
+                    }
+                }
+                _ => None,
+            };
+            predict_insert(&self.model[&h].log, &resolved, sel_width)
         } else {
             InsPred::Plain
         };
@@ -1166,7 +1177,7 @@ fn row_event(cols: usize, row: &[ExprSpec], b: IterB) -> Result<(), Expect> {
     Ok(())
 }
 
-pub fn predict_insert(log: &Log, op: &Op) -> InsPred {
+pub fn predict_insert(log: &Log, op: &Op, sel_width: Option<usize>) -> InsPred {
     let cols = crate::gen::ins_cols(&log.ops);
     match op {
         Op::Ins(InsOp::Values(row, b)) => {
@@ -1219,7 +1230,7 @@ pub fn predict_insert(log: &Log, op: &Op) -> InsPred {
             InsPred::Row { accepted, expect, cols, width }
         }
         Op::Ins(InsOp::SelectFrom(Sub::Inline(l))) => {
-            let w = select_width(l);
+            let w = sel_width.unwrap_or_else(|| measured_width_of_log(l));
             let (accepted, expect) = if w == cols {
                 (Some(op.clone()), Expect::Ok)
             } else {
